@@ -728,3 +728,73 @@ _run5 = run
 def run(rep, programs):  # noqa: F811
     _run5(rep, programs)
     r_huge_coord(rep, programs["core"])
+
+
+def r_units(rep, prog):
+    """Dimension check of the index newtypes (rules/units.py): a number wrapped into FrameId / RowId / HugeId / TreeId, or used
+    to index the per-tree / per-huge-frame / per-row tables directly, must not be known to count something else."""
+    import units
+    rule = "R-UNITS"
+    rep.rule(rule, "XId(e): the unit of e (from the newtypes it was unwrapped from, the conversion helpers and the ratio constants "
+                   "HUGE_FRAMES, TREE_FRAMES, TREE_HUGE, BITFIELD_ROW, ROWS) is X or unknown; children[..] is indexed by a tree "
+                   "number, bitfields[..] by a huge frame number, entries[..] by a tree number, data[..] by a row number")
+    names = {"F": "frames (FrameId)", "R": "rows (RowId)", "H": "huge frames (HugeId)", "T": "trees (TreeId)", "!": "mixed units"}
+    n = 0
+    seen_fn = set()
+    for b, bi, si, x, e, u, span in units.constructions(prog):
+        if u == "?":
+            continue
+        seen_fn.add(b.name)
+        short = b.name.replace("llfree::", "")
+        good = u == x
+        n += good
+        rep.check(good, rule, "%s|%s" % (short, {"F": "FrameId", "R": "RowId", "H": "HugeId", "T": "TreeId"}[x]),
+                  "wraps a number of %s" % names[x],
+                  "%s wraps a number that counts %s as %s: %s" % (short, names.get(u, u), names[x], T.show(e)[:140]), span)
+    rep.floor(rule, "newtype constructions with a known unit", n, 12)
+    expect = {"children": "T", "bitfields": "H", "entries": "T", "data": "R"}
+    owner = {"children": "llfree::lower::Lower::", "bitfields": "llfree::lower::Lower::", "entries": "llfree::trees::Trees::",
+             "data": "llfree::bitfield::Bitfield::"}
+    m = 0
+    crate = prog.crate("llfree")
+    for name, b in sorted(crate.bodies.items()):
+        tm = T.Terms(b, prog)
+        un = units.Units(prog, b)
+        terms = []
+        for bi, si, s in b.stmts():
+            if s["k"] == "assign":
+                terms.append((tm.rvalue(s["rv"]), s.get("span")))
+        for bi, t in b.calls():
+            for a in t["args"]:
+                terms.append((tm.operand(a), t.get("span")))
+        done = set()
+        for t, span in terms:
+            for x in T.walk(t):
+                if x[0] != "idx":
+                    continue
+                base = x[1]
+                while base[0] in ("&", "*", "cast"):
+                    base = base[1]
+                if not (base[0] == "f" and len(base) > 3 and base[3] in expect and name.startswith(owner[base[3]])):
+                    continue
+                u = un.unit(x[2])
+                key = (base[3], T.canon(x[2]))
+                if u == "?" or key in done:
+                    continue
+                done.add(key)
+                seen_fn.add(name)
+                good = u == expect[base[3]]
+                m += good
+                rep.check(good, rule, "%s|index|%s" % (name.replace("llfree::", ""), base[3]),
+                          "%s[..] indexed by a number of %s" % (base[3], names[expect[base[3]]]),
+                          "%s[..] is indexed by a number that counts %s, not %s" % (base[3], names.get(u, u), names[expect[base[3]]]), span)
+    rep.floor(rule, "table index sites with a known unit", m, 8)
+    rep.saw(*sorted(seen_fn))
+
+
+_run6 = run
+
+
+def run(rep, programs):  # noqa: F811
+    _run6(rep, programs)
+    r_units(rep, programs["core"])
